@@ -273,6 +273,7 @@ func checkC08(c *Ctx) {
 	// ---- C08.3 expiry rule
 	checkExpirySelection(c, "C08.3", 5)
 	checkTimeoutWriters(c, "C08.3", owner)
+	checkSweepAlwaysRuns(c, "C08.3")
 
 	checkRemovalUnconditional(c, "C08.7")
 	checkExpiryClock(c, "C08.8")
@@ -757,4 +758,69 @@ func checkMarkOwnRecord(c *Ctx, rule string) {
 			}
 		}
 	}
+}
+
+// checkSweepAlwaysRuns (C08.3): every call of the sweep entry point selects the expired records and removes each of
+// them - no state of an earlier sweep (a "sweep in progress" flag, a rate limit, a remembered result) can make a
+// sweep return without looking. The selection call and the removal loop are reached whatever any condition says.
+func checkSweepAlwaysRuns(c *Ctx, rule string) {
+	r := c.R
+	root := c.fn(rule, "pkg/station/lib", "RegistrationManager", "RemoveOldRegistrations")
+	if root == nil {
+		return
+	}
+	sel, ok := findOneDeep(root, shortIs("getExpiredRegistrations"))
+	if !ok {
+		r.Unk(rule, "RemoveOldRegistrations: selection of the expired records", root.Pos(), fnName(root), "no call of getExpiredRegistrations reachable from the sweep entry point")
+		return
+	}
+	okk := true
+	var where []string
+	for k := 0; k <= len(sel.chain); k++ {
+		f, in := sel.level(k)
+		if !unconditional(f, in) {
+			okk = false
+			where = append(where, fnName(f))
+		}
+	}
+	r.Check(okk, rule, "RemoveOldRegistrations: every sweep selects the expired records", sel.call.Pos(), fnName(sel.in), "getExpiredRegistrations is reached on every path from the sweep entry point",
+		"a sweep can return without selecting the expired records (a condition in "+strings.Join(where, ", ")+" skips it): if that condition sticks - a guard flag that an early return leaves set - expired registrations are never removed, keep matching connections, and the tables grow without bound")
+	// every selected record is handed to removeRegistration: the removal sits in a range loop over the selection that
+	// is entered on every path after the selection
+	rm, ok := findOneDeep(root, shortIs("removeRegistration"))
+	if !ok {
+		r.Unk(rule, "RemoveOldRegistrations: removal of the selected records", root.Pos(), fnName(root), "no call of removeRegistration reachable from the sweep entry point")
+		return
+	}
+	f := rm.in
+	var loopHead *ssa.BasicBlock
+	// the block that tests the range index (dominates the removal, has the removal's block in a cycle)
+	for b := rm.call.Block(); b != nil; b = b.Idom() {
+		if _, isIf := b.Instrs[len(b.Instrs)-1].(*ssa.If); isIf && strings.HasPrefix(b.Comment, "rangeindex.loop") {
+			loopHead = b
+			break
+		}
+	}
+	if loopHead == nil {
+		r.Unk(rule, "RemoveOldRegistrations: removal loop", rm.call.Pos(), fnName(f), "removeRegistration is not called from a range loop over the selection")
+		return
+	}
+	// (an early return for an empty selection skips nothing)
+	entered := reachGame(f, loopHead.Instrs[0], func(bl *ssa.BasicBlock) int {
+		iff, ok := bl.Instrs[len(bl.Instrs)-1].(*ssa.If)
+		if !ok {
+			return gameAny
+		}
+		if cnd, _ := normCond(iff.Cond); strings.Contains(cnd, "len(") && strings.Contains(cnd, "getExpiredRegistrations()") {
+			return gameAny
+		}
+		if hit, _ := reachAt(f, bl, isInstr(loopHead.Instrs[0]), nil, nil); !hit {
+			return gameAny
+		}
+		return gameAll
+	})
+	// inside the loop: the removal is reached on every iteration
+	inLoop := reachGameFrom(f, loopHead.Succs[0], rm.call, func(bl *ssa.BasicBlock) int { return gameAll })
+	r.Check(entered && inLoop, rule, "RemoveOldRegistrations: every selected record is removed", rm.call.Pos(), fnName(f), "the range loop over the selection is entered on every path and calls removeRegistration on every iteration",
+		"a selected (expired) record can be skipped by the sweep: it stays tracked and keeps matching connections past its lifetime")
 }
